@@ -9,7 +9,7 @@ ID = "C03"
 N_QUICK, N_THOROUGH = 1200, 60000
 RULE = ("texts assembled from a grammar of parameters (known/unknown keys in any case, duplicates, key-only, multi-component, after NOTES/NOTEDATA), "
         "stray text, missing semicolons, comments, BOM, LF/CRLF; metacharacter soup; mutations/truncations/splices of the corpus files; x strict x entry "
-        "points {loads, load(StringIO), load(iterator), load(open file *.sm *.ssc *.SM *.txt *.sm.bak dotless), open(filename), class constructors "
+        "points {loads, load(StringIO), load(iterator), load(open file *.sm *.ssc *.SM *.txt *.sm.bak dotless, names that are only dots and an extension (.sm, ..SM) or have further dots (Mr. Saturn.sm, v1.2.ssc, a.ssc.sm)), open(filename), class constructors "
         "string=/file=, SSCChart.from_str, SMChart.from_str/from_msd}; msdparser's own parameter list fed to the model's loader; non-trivial = text "
         "yields at least two parameters")
 assumptions = ["msdparser's 4096-character chunking is transparent for the generated texts; corpus mutations > 4096 characters test that assumption",
